@@ -263,7 +263,18 @@ impl BackendFileSystem for Backend {
 
 pub const PATHS: [&str; 4] = ["/", "/a", "/a/b", "/c"];
 pub const KIND_ROOT: [u64; 3] = [1, 7, 1];
-pub const MAPS: [Option<M>; 3] = [None, Some((100, 2000, 10)), Some((0, 5, 10))];
+pub const MAPS: [Option<M>; 4] = [None, Some((100, 2000, 10)), Some((0, 5, 10)), Some((100, 2000, 0))];
+/// mount paths that are not normalised: (spelling handed to mount/umount, the path it denotes, pseudo directories
+/// that walking the spelling creates on the way); addressed as path index PATHS.len() + i
+pub const SPELLED: [(&str, &str, &[&str]); 2] = [("/a/../c", "/c", &["/a"]), ("/a/./b", "/a/b", &[])];
+
+fn path_of(idx: usize) -> (&'static str, &'static str, &'static [&'static str]) {
+    if idx < PATHS.len() {
+        (PATHS[idx], PATHS[idx], &[])
+    } else {
+        SPELLED[idx - PATHS.len()]
+    }
+}
 pub const GLOBALS: [Option<M>; 5] = [None, Some((0, 1000, 10)), Some((0, 5, 10)), Some((0, 4294967286, 10)), Some((5, 5, 3))];
 
 #[derive(Clone, Copy, Debug, PartialEq, Eq, Hash)]
@@ -357,9 +368,9 @@ impl World {
             Act::Mount { kind, path, map } => {
                 let id = self.insts.len();
                 let b = Backend { inst: id, root: KIND_ROOT[kind], log: self.log.clone() };
-                let p = PATHS[path];
+                let (spelled, p, extra) = path_of(path);
                 let live = self.insts.iter().filter(|i| i.alive).count();
-                let res = std::panic::catch_unwind(std::panic::AssertUnwindSafe(|| self.vfs.mount_with_id_mapping(Box::new(b), p, MAPS[map])));
+                let res = std::panic::catch_unwind(std::panic::AssertUnwindSafe(|| self.vfs.mount_with_id_mapping(Box::new(b), spelled, MAPS[map])));
                 self.take_log();
                 match res {
                     Err(_) => self.bad("mount-panic", format!("mount at {} panicked", p)),
@@ -381,6 +392,11 @@ impl World {
                         for a in ancestors(p) {
                             self.pseudo.entry(a).or_insert(None);
                         }
+                        for e in extra {
+                            for a in ancestors(e) {
+                                self.pseudo.entry(a).or_insert(None);
+                            }
+                        }
                     }
                     Ok(Err(e)) => {
                         if live < 255 {
@@ -391,13 +407,15 @@ impl World {
                 }
             }
             Act::Umount { path } => {
-                let p = PATHS[path];
-                let res = std::panic::catch_unwind(std::panic::AssertUnwindSafe(|| self.vfs.umount(p)));
+                let (spelled, p, extra) = path_of(path);
+                // a spelling through another directory only resolves while that pseudo directory exists
+                let resolvable = extra.iter().all(|e| self.pseudo.contains_key(*e));
+                let res = std::panic::catch_unwind(std::panic::AssertUnwindSafe(|| self.vfs.umount(spelled)));
                 self.take_log();
                 match res {
                     Err(_) => self.bad("umount-panic", format!("umount {} panicked", p)),
                     Ok(r) => {
-                        let mounted = self.mounts.contains_key(p);
+                        let mounted = self.mounts.contains_key(p) && resolvable;
                         if r.is_ok() != mounted {
                             self.bad("umount-result", format!("umount {} returned {:?}, mounted = {}", p, r.is_ok(), mounted));
                         }
@@ -844,7 +862,7 @@ impl World {
 fn acts(ids: bool, cycles: bool) -> Vec<Act> {
     let mut v = Vec::new();
     let kinds: &[usize] = if ids { &[1] } else { &[0, 1, 2] };
-    let maps: &[usize] = if ids { &[0, 1, 2] } else { &[0] };
+    let maps: &[usize] = if ids { &[0, 1, 2, 3] } else { &[0] };
     for p in 0..PATHS.len() {
         for &kd in kinds {
             for &mp in maps {
@@ -855,6 +873,11 @@ fn acts(ids: bool, cycles: bool) -> Vec<Act> {
     for p in 0..PATHS.len() {
         v.push(Act::Umount { path: p });
     }
+    // mount paths that are not normalised
+    for i in 0..SPELLED.len() {
+        v.push(Act::Mount { kind: kinds[0], path: PATHS.len() + i, map: maps[0] });
+    }
+    v.push(Act::Umount { path: PATHS.len() });
     if cycles {
         v.push(Act::Cycle(253));
         v.push(Act::Cycle(254));
@@ -1092,13 +1115,21 @@ pub enum PAct {
     Destroy,
 }
 
-const CAPS: [u64; 3] = [
+const CAPS: [u64; 5] = [
     0x0000_0000_ffff_ffff & !(1 << 31),
     k::FUSE_ASYNC_READ | k::FUSE_BIG_WRITES,
     k::FUSE_INIT_EXT | k::FUSE_HAS_INODE_DAX | k::FUSE_NO_OPEN_SUPPORT | k::FUSE_NO_OPENDIR_SUPPORT | k::FUSE_ATOMIC_O_TRUNC,
+    // exactly one of the zero-message capabilities (kernels before 5.1 offer only the first)
+    k::FUSE_ASYNC_READ | k::FUSE_NO_OPEN_SUPPORT,
+    k::FUSE_ASYNC_READ | k::FUSE_NO_OPENDIR_SUPPORT | k::FUSE_WRITEBACK_CACHE,
 ];
 
-const PPATHS: [&str; 6] = ["/", "/a", "/a/b", "/c", "/n", "/n/m"];
+const PPATHS: [&str; 7] = ["/", "/a", "/a/b", "/c", "/n", "/n/m", "/a/../c"];
+
+/// the path a PPATHS spelling denotes (key of the table of live mounts)
+fn pnorm(p: &str) -> String {
+    if p == "/a/../c" { "/c".to_string() } else { p.to_string() }
+}
 
 #[derive(Clone, Debug)]
 struct Live {
@@ -1218,12 +1249,12 @@ fn c19_replay(rpr: bool, global: Option<M>, seq: &[PAct], cl: &mut Client) -> (A
                 let id = ninst;
                 ninst += 1;
                 if let Ok(slot) = orig.mount_with_id_mapping(Box::new(Backend { inst: id, root: 7, log: log.clone() }), PPATHS[*path], MAPS[*map]) {
-                    live.insert(PPATHS[*path].to_string(), Live { inst: id, slot, map: MAPS[*map] });
+                    live.insert(pnorm(PPATHS[*path]), Live { inst: id, slot, map: MAPS[*map] });
                 }
             }
             PAct::Umount { path } => {
                 if orig.umount(PPATHS[*path]).is_ok() {
-                    live.remove(PPATHS[*path]);
+                    live.remove(&pnorm(PPATHS[*path]));
                 }
             }
             PAct::Init(i) => {
@@ -1262,14 +1293,14 @@ fn c19_seq(rep: &mut Report, cl: &mut Client, rpr: bool, global: Option<M>, seq:
                 let id = ninst;
                 ninst += 1;
                 if let Ok(slot) = orig.mount_with_id_mapping(Box::new(Backend { inst: id, root: 7, log: log.clone() }), PPATHS[*path], MAPS[*map]) {
-                    live.insert(PPATHS[*path].to_string(), Live { inst: id, slot, map: MAPS[*map] });
+                    live.insert(pnorm(PPATHS[*path]), Live { inst: id, slot, map: MAPS[*map] });
                     old_inodes.push(((slot as u64) << 56) | 7);
                     old_inodes.push(((slot as u64) << 56) | INO_F0);
                 }
             }
             PAct::Umount { path } => {
                 if orig.umount(PPATHS[*path]).is_ok() {
-                    live.remove(PPATHS[*path]);
+                    live.remove(&pnorm(PPATHS[*path]));
                 }
             }
             PAct::Init(i) => {
@@ -1437,14 +1468,15 @@ pub fn c19(args: &Args) -> Report {
     let depth = if thorough { 4 } else { 3 };
     let mut alphabet: Vec<PAct> = Vec::new();
     for p in 0..4 {
-        for m in 0..2 {
+        for m in [0usize, 1, 3] {
             alphabet.push(PAct::Mount { path: p, map: m });
         }
     }
+    alphabet.push(PAct::Mount { path: 6, map: 0 });
     for p in 0..4 {
         alphabet.push(PAct::Umount { path: p });
     }
-    for i in 0..3 {
+    for i in 0..CAPS.len() {
         alphabet.push(PAct::Init(i));
     }
     alphabet.push(PAct::Destroy);
